@@ -186,7 +186,7 @@ def install(I):
     def timegm_(I, tm):
         import calendar
         f = [I.load(tm + 4 * k, _IT(32)) for k in range(6)]
-        if any(isinstance(x, Sym) for x in f): raise Unsupported('timegm of symbolic fields')
+        if any(isinstance(x, Sym) for x in f): return I.fresh('timegm', 64)          # over-approximation: any time_t (harnesses that check the value install an exact model)
         sg = lambda x: x - (1 << 32) if x >> 31 else x
         sec, mi, hr, d, mon, yr = [sg(x) for x in f]
         days = calendar.timegm((yr + 1900 + mon // 12, mon % 12 + 1, 1, 0, 0, 0)) // 86400 + (d - 1)
